@@ -31,7 +31,9 @@ from ..gen import rng_for
 
 EXTRA_PROP_MODULES = [("KB.Props.C20Metrics", "KB.C20Metrics"), ("KB.Props.C20Requests", "KB.C20Requests"),
                       ("KB.Props.C20Native", "KB.C20Native"), ("KB.Props.OrderC19", "KB.OrderC19"),
-                      ("KB.Props.C04Window", "KB.C04Window")]
+                      ("KB.Props.C04Window", "KB.C04Window"),
+                      # the window is tied to tso.Deal by the shape facts of KB.C18Cas (source_matches_lts)
+                      ("KB.Props.C18Cas", "KB.C18Cas")]
 
 TABLE = os.path.join(core.LEAN, "KB", "Generated", "MetricSites.lean")
 SITE_RE = re.compile(
@@ -601,4 +603,9 @@ def check(rep, tier, seed):
         return True
     # native handler glue (pkg/server/brain read.go / write.go): KB.Props.C20Native + differential suite `native`
     from .. import native
-    return native.check(rep, tier, seed, "C20")
+    if native.check(rep, tier, seed, "C20"):
+        return True
+    # the dealing window on the real allocator (TestTsoWindow: a full window is refused, never dealt without a slot):
+    # the concrete counterpart of KB.C04Window / KB.C18Cas, which this property audits
+    from .. import tsocas
+    return tsocas.run_dynamic(rep, "C20", seed)
